@@ -154,8 +154,9 @@ def c10_slot(first: int, fate: int, second: int, third: int, g: int, p: int) -> 
                 # the first request was sent with waiting and is still unanswered: its operation has not ended, yet nothing holds the slot
                 rt.note('%s (waiting) is still unanswered but the exclusive slot is free: the next request would interleave with it', what)
                 ok = False
-            if holder is None and transient:
-                # a watcher in a transient status IS an operation in progress (every start / stop path is exclusive here)
+            if holder is None and transient and FATES[fate] == 'ok':
+                # a watcher in a transient status IS an operation in progress (every start / stop path is exclusive here) -- unless the
+                # operation was made to fail half-way: then it HAS ended, the slot is rightly free, and the status left behind is C04's subject
                 rt.note('%s: watcher(s) %r are in a transient status but the exclusive slot is free: the next request would be accepted', what, transient)
                 ok = False
             snap = _snapshot(w)
